@@ -201,6 +201,21 @@ CHECKS["C14"] = {
     "note": "Trusted: NumPy view/copy semantics table (sa/engine/alias.py); external callees (NumPy/SciPy) do not write their arguments.",
 }
 
+CHECKS["C18"] = {
+    "engine": "sa",
+    "technique": "exact polynomial identities (E9), constant folding of sibling implementations, Lie-kind typing of call sites (E7), structural count/spacing/index rules",
+    "design_ref": "DESIGN.md section 4 C18",
+    "text": ("Decides the defining relations of the helpers that are visible in the shape of the code: the plane through three "
+             "points contains them (polynomial identity) and mirror consumes that plane with the same sign convention, |n|^2 and "
+             "p+2kn over the frame's local XY plane - so planes NOT through the origin are handled; every angle-wrapping "
+             "sibling wraps at and modulo 2*pi; exp/log/hat/vee are only applied to values of the kind they are defined on "
+             "(log of a rotation, never of a scaled rotation); IKPath has steps poses, evenly spaced, ending at the goal; "
+             "gap closing advances by delta along the unit direction; the midpoint is mean position + exp(log(R2 R1^T)/2)R1; "
+             "sphere samplers satisfy x^2+y^2+z^2 = 1 identically; chainJacobian follows the JacobianSpace recurrence; lookAt "
+             "builds a right-handed frame. Geodesic/metric relations as numbers and the optimiser-based helper are not decided."),
+    "note": "Trusted: exp/log primitives (C01); NumPy element-wise semantics.",
+}
+
 _PENDING = "rule module not yet built in this round (see DESIGN.md section 4 for the planned static rules)"
 for _i in range(1, 21):
     _p = "C%02d" % _i
